@@ -537,6 +537,117 @@ def c06_replay(prop, path):
 PROPS["C06"] = {"run": c06_run, "replay": c06_replay}
 
 
+def _keyhash(prop, tier, seed, owns):
+    """KeyHash.tla cases on the handle computation + end to end in the simulation; `owns` selects the signatures of this property"""
+    wd = vlib.workdir(prop)
+    known = vlib.load_known()
+    r1, cases = _cases_from_tlc("MC_KeyHash", "MC_KeyHash.cfg", wd)
+    if len(cases) < 500:
+        raise ToolError("vacuity guard: too few key hash cases")
+    cf = os.path.join(wd, "keyhash.cases")
+    with open(cf, "w") as f:
+        for c in cases:
+            f.write(json.dumps(c) + "\n")
+    rep_path = os.path.join(wd, "keyhash.rep")
+    vlib.run_vh(["keyhash", "--cases", cf, "--out", rep_path])
+    rep = json.load(open(rep_path))
+    found = [(d["sig"], f"expected {bytes(d['expected']).hex() if isinstance(d['expected'], list) else d['expected']} got "
+                        f"{bytes(d['got']).hex() if isinstance(d['got'], list) else d['got']} for {json.dumps(d['case'])[:300]}", {"case": d["case"]})
+             for d in rep["distinct"]]
+    # end to end: writer-assigned handle = reader-derived handle (alive and disposed samples) = specification
+    import random
+    rng = random.Random(seed)
+    by_type = {}
+    for c in cases:
+        by_type.setdefault(c["t"], []).append(c)
+    scen = []
+    per = 12 if tier == "quick" else 60
+    for t, cs in sorted(by_type.items()):
+        pick = cs if len(cs) <= per else rng.sample(cs, per)
+        scen.append({"name": f"{prop}-e2e-{t}", "family": "e2e", "seed": seed, "frag": 1344, "expected": {json.dumps(c["v"]): c["e"] for c in pick},
+                     "steps": [{"do": "participant"}, {"do": "participant"}, {"do": "sleep", "ms": 300},
+                               {"do": "keyhash_e2e", "type": t, "values": [c["v"] for c in pick]}, {"do": "final"}]})
+    runs = simcheck.run_sim_batch(scen, wd, "kh", jobs=4)
+    import hashlib
+    e2e = 0
+    for sc, run in zip(scen, runs):
+        for e in run or []:
+            if e["ev"] == "SimError":
+                found.append(("KeyHash:e2e:simulation-error", str(e["err"])[:200], {"scenario": sc}))
+            if e["ev"] != "KeyE2E":
+                continue
+            if "error" in e:
+                found.append((f"KeyHash:e2e:error:{e['type']}", e["error"], {"scenario": sc}))
+                continue
+            e2e += 1
+            exp = sc["expected"][json.dumps(e["v"])]
+            want = exp["bytes"] if exp["mode"] == "pad" else list(hashlib.md5(bytes(exp["bytes"])).digest())
+            if e["hw"] != e["hr"]:
+                found.append((f"KeyHash:identity:reader-handle-differs-from-writer-handle:{e['phase']}",
+                              f"type {e['type']} key {e['v']}: writer {e['hw']} reader {e['hr']}", {"scenario": sc, "event": e}))
+            if e["hw"] != want:
+                how = "padded-although-max-size-exceeds-16" if exp["mode"] == "md5" else "octets"
+                found.append((f"KeyHash:{exp['mode']}:e2e:{how}", f"type {e['type']} key {e['v']}: expected {want} got {e['hw']}", {"scenario": sc, "event": e}))
+    violations, known_hits, other = [], [], {}
+    for sig, what, content in found:
+        if not owns(sig):
+            other[sig] = other.get(sig, 0) + 1
+            continue
+        kf = next((k for k in known["findings"] if sig.startswith(k["signature"])), None)
+        if kf:
+            if not any(h["sig"] == sig for h in known_hits):
+                known_hits.append({"sig": sig, "what": f"{kf['what']} [{sig}]"})
+            continue
+        if any(v["sig"] == sig for v in violations):
+            continue
+        content.update({"property": prop, "signature": sig})
+        path = vlib.save_replay(prop, re.sub(r"[^A-Za-z0-9_.-]", "_", sig)[:140], content)
+        violations.append({"sig": sig, "what": f"{sig}: {what}", "replay": path})
+    if e2e < 50 or rep["evaluated"] != len(cases):
+        raise ToolError(f"vacuity guard: only {e2e} end-to-end observations / {rep['evaluated']} function cases")
+    coverage = {"states": r1["stats"]["distinct"], "transitions": len(cases), "traces_validated_against_impl": rep["evaluated"] + e2e,
+                "evaluations": rep["evaluated"] * 2 + rep["pairs"] + e2e, "distinct_nontrivial": rep["md5"] + rep["pad"],
+                "function_cases": rep["evaluated"], "pad_cases": rep["pad"], "md5_cases": rep["md5"], "value_pairs_compared": rep["pairs"], "key_types": rep["types"],
+                "end_to_end_observations": e2e, "signatures_owned_by_the_other_key_property": other,
+                "rule": "one case = one (key type, key value) of MC_KeyHash.tla: TLC computes the serialized key, its maximum size and the pad/MD5 decision; the harness computes the handle of a "
+                        "real sample of the corresponding Rust type (twice, with different non-key members), compares it with the specification, compares all pairs of values of a type "
+                        "(same handle iff same key), and in the simulation compares the handle returned by register_instance, the handle of the sample presented by a remote reader and "
+                        "the handle of the disposed instance",
+                "exhaustive": True, "checker_cmd": r1["stats"]["cmd"]}
+    return {"level": "model_checking", "coverage": coverage, "violations": violations, "known": known_hits,
+            "assumptions": ["the Rust types of harness/src/keyhash.rs are the types of MC_KeyHash.tla (same key members in the same order)",
+                            "MD5 is computed by the harness (md5 crate / hashlib) from the octets the specification gives",
+                            "key members of 64 bit and floating point kinds, sequences, arrays, enumerations, explicit member ids are outside the enumerated type language"]}
+
+
+def _keyhash_replay(prop, path):
+    rep = json.load(open(path))
+    wd = vlib.workdir(prop + ".replay")
+    if "scenario" in rep:
+        runs = simcheck.run_sim_batch([rep["scenario"]], wd, "r", jobs=1)
+        for e in runs[0] or []:
+            if e["ev"] == "KeyE2E":
+                print(json.dumps(e)[:400])
+        print("end-to-end replays are judged by ./check (run it again); events printed above")
+        return 0
+    cf = os.path.join(wd, "c.cases")
+    open(cf, "w").write(json.dumps(rep["case"]) + "\n")
+    out = os.path.join(wd, "c.rep")
+    vlib.run_vh(["keyhash", "--cases", cf, "--out", out])
+    r = json.load(open(out))
+    print(json.dumps(r)[:1500])
+    if any(d["sig"] == rep["signature"] for d in r["distinct"]):
+        print(f"VIOLATION property={prop} replay={path}")
+        return 1
+    return 0
+
+
+PROPS["C11"] = {"run": lambda p, t, s: _keyhash(p, t, s, lambda sig: sig.startswith("KeyHash:identity") or sig.startswith("KeyHash:e2e") or sig.startswith("KeyHash:error")),
+                "replay": _keyhash_replay}
+PROPS["C12"] = {"run": lambda p, t, s: _keyhash(p, t, s, lambda sig: sig.startswith("KeyHash:pad") or sig.startswith("KeyHash:md5") or sig.startswith("KeyHash:e2e") or sig.startswith("KeyHash:error")),
+                "replay": _keyhash_replay}
+
+
 def c08_run(prop, tier, seed):
     wd = vlib.workdir(prop)
     known = vlib.load_known()
